@@ -249,3 +249,477 @@ Proof.
   pose proof (handle_invoke_only_fee env tx ip (cache_reset s) BS H) as (A & B & C & D).
   split; [exact A|]. split; [exact B|]. split; [exact C|exact D].
 Qed.
+
+(** * What [fee_moved] means for the readers of the map *)
+
+Lemma kv_lookup_spec_put k v l x : ssorted l ->
+  kv_lookup x (spec_put k v l) = if key_eqb x k then v else kv_lookup x l.
+Proof.
+  intro H. rewrite !kv_lookup_lookup, lookup_spec_put by exact H.
+  destruct (key_eqb x k); [|reflexivity]. unfold nz. destruct v; reflexivity.
+Qed.
+
+Lemma pkey_ong_inj a b : pkey pfx (ong_key a) = pkey pfx (ong_key b) -> a = b.
+Proof.
+  intro E. apply (f_equal (@tl N)) in E. unfold pkey in E. cbn [tl] in E.
+  unfold ong_key in E. exact (app_inv_head _ _ _ E).
+Qed.
+
+Lemma bal_in_set_same a b l : ssorted l -> bal_in (set_bal a b l) a = read_balance (enc_bal b).
+Proof. intro H. unfold bal_in, set_bal. rewrite kv_lookup_spec_put, key_eqb_refl by exact H. reflexivity. Qed.
+
+Lemma bal_in_set_other a a' b l : ssorted l -> a' <> a -> bal_in (set_bal a b l) a' = bal_in l a'.
+Proof.
+  intros H Hn. unfold bal_in, set_bal. rewrite kv_lookup_spec_put by exact H.
+  destruct (key_eqb _ _) eqn:E; [|reflexivity]. apply key_eqb_eq, pkey_ong_inj in E. contradiction.
+Qed.
+
+Lemma set_bal_sorted a b l : ssorted l -> ssorted (set_bal a b l).
+Proof. apply spec_put_sorted. Qed.
+
+(** With payer <> governance and balances in the domain of the stored form: afterwards the payer
+    has exactly [fee] less, governance exactly [fee] more, and every other key reads as before. *)
+Lemma fee_moved_balances payer fee l l' fb tb : ssorted l -> payer <> FEE_GOV_ADDR ->
+  fee_moved payer fee l l' -> fee <> 0 ->
+  bal_in l payer = Some fb -> bal_in l FEE_GOV_ADDR = Some tb ->
+  balance_in_domain fb -> balance_in_domain (tb + Z.of_N fee * ScaleFactor) ->
+  let v := (Z.of_N fee * ScaleFactor)%Z in
+  (v <= fb)%Z /\
+  bal_in l' payer = Some (fb - v)%Z /\ bal_in l' FEE_GOV_ADDR = Some (tb + v)%Z /\
+  forall k, k <> pkey pfx (ong_key payer) -> k <> pkey pfx gov_key -> kv_lookup k l' = kv_lookup k l.
+Proof.
+  intros Hl Hn [[H0 _]|(_ & fb' & tb' & Hm)] Hfee Hfb Htb Dfb Dtb; [contradiction|].
+  cbv zeta in Hm. destruct Hm as (Hfb' & Hle & Htb' & ->).
+  rewrite Hfb in Hfb'. injection Hfb' as <-.
+  rewrite bal_in_set_other in Htb' by (auto; congruence). rewrite Htb in Htb'. injection Htb' as <-.
+  cbv zeta. set (v := (Z.of_N fee * ScaleFactor)%Z) in *.
+  assert (Dnf : balance_in_domain (fb - v)).
+  { unfold balance_in_domain, ScaleFactor, two64Z in *. subst v. unfold ScaleFactor in *.
+    destruct Dfb. split; [lia|]. 
+    assert (((fb - Z.of_N fee * 1000000000) / 1000000000 <= fb / 1000000000)%Z) by (apply Z.div_le_mono; lia). lia. }
+  pose proof (set_bal_sorted payer (fb - v) l Hl) as Hl1.
+  split; [exact Hle|]. split; [|split].
+  - rewrite bal_in_set_other by auto. rewrite bal_in_set_same by exact Hl. apply read_enc_bal; exact Dnf.
+  - rewrite bal_in_set_same by exact Hl1. apply read_enc_bal; exact Dtb.
+  - intros k K1 K2. unfold set_bal. rewrite !kv_lookup_spec_put by (try apply spec_put_sorted; assumption).
+    destruct (key_eqb k (pkey pfx (ong_key FEE_GOV_ADDR))) eqn:E1; [apply key_eqb_eq in E1; contradiction|].
+    destruct (key_eqb k (pkey pfx (ong_key payer))) eqn:E2; [apply key_eqb_eq in E2; contradiction|]. reflexivity.
+Qed.
+
+(** * Successful transactions *)
+
+Lemma interp_sorted_ssorted ip s g o : interp_sorted ip -> ip s g = Some o -> ssorted (o_cache o).
+Proof. intros H E. apply sortedb_ssorted. eapply H; eauto. Qed.
+
+Lemma exec_part_success env tx ip s avail clg old : block_sorted s -> interp_sorted ip ->
+  r_status (exec_part env tx ip s (is_charge tx) avail clg old) = StSuccess ->
+  exists o, ip s (fee_exec_gas avail clg) = Some o /\ o_ok o = true /\ o_internal o = false /\
+            success_commits tx s o (exec_part env tx ip s (is_charge tx) avail clg old).
+Proof.
+  intros BS IS. unfold exec_part. destruct (ip s (fee_exec_gas avail clg)) as [o|] eqn:Eo; [|discriminate].
+  set (s1 := mkState (o_cache o) (st_overlay s) (st_store s)).
+  assert (S1 : sorted_state s1).
+  { destruct BS as [A B]. repeat split; simpl; auto. eapply interp_sorted_ssorted; eauto. }
+  assert (A1 : abs s1 = apply_layer (o_cache o) (abs_block s)) by reflexivity.
+  destruct (o_internal o) eqn:Ei; [discriminate|].
+  destruct (o_ok o) eqn:Ok; cbn [negb].
+  2:{ destruct (is_charge tx); [|discriminate]. unfold tuned_cost_invalid. destruct (tune_fee _ _ _ _ _); [discriminate|].
+      unfold cost_invalid. destruct (ong_transfer _ _ _ _ _) as [f [[]|]]; discriminate. }
+  intro H. exists o. split; [reflexivity|]. split; [exact Ok|]. split; [exact Ei|].
+  unfold success_commits. revert H. destruct (is_charge tx).
+  - destruct (get_balance s1 (t_payer tx)) as [new|]; [|discriminate].
+    destruct (fee_lt_new new _).
+    { unfold tuned_cost_invalid. destruct (tune_fee _ _ _ _ _); [discriminate|].
+      unfold cost_invalid. destruct (ong_transfer _ _ _ _ _) as [f [[]|]]; discriminate. }
+    destruct (tune_fee _ _ _ _ _) as [|g]; [discriminate|].
+    destruct (ong_transfer _ _ _ g s1) as [s2 [e|]] eqn:E; [destruct e; discriminate|].
+    intros _. destruct (ong_transfer_ok _ _ _ _ _ _ S1 E) as (S2 & [SBo SBs] & Cases).
+    destruct (commit_cache_abs s2 S2) as (C1 & _ & C3 & C4 & _).
+    cbn [r_state r_gas r_fee_events r_events]. split; [exact C1|]. split; [rewrite C3; exact SBs|].
+    cbv zeta. split; [reflexivity|]. split; [reflexivity|]. rewrite C4, <- A1.
+    destruct Cases as [[-> ->]|(Hg & _ & fb & tb & _ & Hfb & Hle & Htb & Habs)].
+    + left. split; reflexivity.
+    + right. split; [exact Hg|]. exists fb, tb. cbv zeta. auto.
+  - intros _. destruct (commit_cache_abs s1 S1) as (C1 & _ & C3 & C4 & _).
+    cbn [r_state r_gas r_fee_events r_events]. split; [exact C1|]. split; [rewrite C3; reflexivity|].
+    cbv zeta. split; [reflexivity|]. split; [reflexivity|]. rewrite C4. exact A1.
+Qed.
+
+Lemma cost_invalid_not_success tx s g : r_status (cost_invalid tx s g) <> StSuccess.
+Proof. unfold cost_invalid. destruct (ong_transfer _ _ _ _ _) as [f [[]|]]; discriminate. Qed.
+
+Lemma handle_invoke_success env tx ip s : block_sorted s -> interp_sorted ip ->
+  r_status (handle_invoke env tx ip s) = StSuccess ->
+  exists g o, ip s g = Some o /\ o_ok o = true /\ o_internal o = false /\
+              success_commits tx s o (handle_invoke env tx ip s).
+Proof.
+  intros BS IS.
+  unfold handle_invoke. fold (is_charge tx). destruct (is_charge tx) eqn:Ec.
+  - destruct (e_codegas env) as [cg|]; [|discriminate].
+    destruct (get_balance _ _) as [old|]; [|discriminate].
+    destruct (fee_lt_min old _); [intro H; exfalso; eapply cost_invalid_not_success; eauto|].
+    destruct (fee_lt_code old _ _); [intro H; exfalso; eapply cost_invalid_not_success; eauto|].
+    destruct (fee_lt_limit _ _); [intro H; exfalso; eapply cost_invalid_not_success; eauto|].
+    intro H. rewrite <- Ec in H.
+    destruct (exec_part_success _ _ _ _ _ _ _ BS IS H) as (o & Eo & Ok & Ei & SC).
+    eexists _, o. split; [exact Eo|]. split; [exact Ok|]. split; [exact Ei|]. rewrite <- Ec. exact SC.
+  - intro H. rewrite <- Ec in H.
+    destruct (exec_part_success _ _ _ _ _ _ _ BS IS H) as (o & Eo & Ok & Ei & SC).
+    eexists _, o. split; [exact Eo|]. split; [exact Ok|]. split; [exact Ei|]. rewrite <- Ec. exact SC.
+Qed.
+
+Theorem success_commits_once env tx ip s : wf_state s = true -> interp_sorted ip ->
+  r_status (handle_invoke env tx ip (cache_reset s)) = StSuccess ->
+  exists g o, ip (cache_reset s) g = Some o /\ o_ok o = true /\ o_internal o = false /\
+              success_commits tx s o (handle_invoke env tx ip (cache_reset s)).
+Proof.
+  intros W IS H. apply wf_state_sorted in W.
+  assert (BS : block_sorted (cache_reset s)) by (apply sorted_block_sorted, cache_reset_sorted; exact W).
+  exact (handle_invoke_success env tx ip (cache_reset s) BS IS H).
+Qed.
+
+(** * Blocks: the invariant carried from transaction to transaction *)
+
+Lemma cost_invalid_block_sorted tx s g : block_sorted s -> block_sorted (r_state (cost_invalid tx s g)).
+Proof.
+  intro BS. unfold cost_invalid.
+  destruct (ong_transfer _ _ _ g (fresh s)) as [f [e|]] eqn:E; [destruct e; exact BS|].
+  destruct (ong_transfer_ok _ _ _ _ _ _ (fresh_sorted s BS) E) as (Hf & _ & _).
+  destruct (cache_commit_sorted f Hf) as (_ & Ho & _). split; [exact Ho|apply BS].
+Qed.
+
+Lemma tuned_cost_invalid_block_sorted env tx s a b c : block_sorted s ->
+  block_sorted (r_state (tuned_cost_invalid env tx s a b c)).
+Proof.
+  intro BS. unfold tuned_cost_invalid. destruct (tune_fee _ _ _ _ _); [exact BS|apply cost_invalid_block_sorted; exact BS].
+Qed.
+
+Lemma exec_part_block_sorted env tx ip s ic avail clg old : block_sorted s -> interp_sorted ip ->
+  block_sorted (r_state (exec_part env tx ip s ic avail clg old)).
+Proof.
+  intros BS IS. unfold exec_part. destruct (ip s (fee_exec_gas avail clg)) as [o|] eqn:Eo; [|exact BS].
+  set (s1 := mkState (o_cache o) (st_overlay s) (st_store s)).
+  assert (S1 : sorted_state s1).
+  { destruct BS as [A B]. repeat split; simpl; auto. eapply interp_sorted_ssorted; eauto. }
+  assert (BS1 : block_sorted s1) by exact BS.
+  destruct (o_internal o); [exact BS1|].
+  destruct (negb (o_ok o)).
+  - destruct ic; [apply tuned_cost_invalid_block_sorted; exact BS1|exact BS1].
+  - destruct ic; [|apply sorted_block_sorted, cache_commit_sorted; exact S1].
+    destruct (get_balance s1 (t_payer tx)) as [new|]; [|exact BS1].
+    destruct (fee_lt_new new _); [apply tuned_cost_invalid_block_sorted; exact BS1|].
+    destruct (tune_fee _ _ _ _ _) as [|g]; [exact BS1|].
+    destruct (ong_transfer _ _ _ g s1) as [s2 [e|]] eqn:E.
+    + pose proof (ong_transfer_same_block _ _ _ _ _ _ _ E) as SB.
+      destruct e; cbn [charge_failed r_state]; eapply block_sorted_same; eauto.
+    + destruct (ong_transfer_ok _ _ _ _ _ _ S1 E) as (S2 & _ & _).
+      apply sorted_block_sorted, cache_commit_sorted; exact S2.
+Qed.
+
+Lemma handle_invoke_block_sorted env tx ip s : block_sorted s -> interp_sorted ip ->
+  block_sorted (r_state (handle_invoke env tx ip s)).
+Proof.
+  intros BS IS. unfold handle_invoke.
+  destruct (negb (t_sys tx) && negb (t_price tx =? 0)); [|apply exec_part_block_sorted; assumption].
+  destruct (e_codegas env); [|exact BS]. destruct (get_balance s (t_payer tx)); [|exact BS].
+  destruct (fee_lt_min _ _); [apply cost_invalid_block_sorted; exact BS|].
+  destruct (fee_lt_code _ _ _); [apply cost_invalid_block_sorted; exact BS|].
+  destruct (fee_lt_limit _ _); [apply cost_invalid_block_sorted; exact BS|].
+  apply exec_part_block_sorted; assumption.
+Qed.
+
+(** run_block is the fold of block_trace *)
+Lemma run_block_trace env txs : forall s,
+  snd (run_block env txs s) = map snd (block_trace env txs s).
+Proof.
+  induction txs as [|[tx ip] rest IH]; intro s; [reflexivity|].
+  cbn [run_block block_trace]. destruct (stops _); [reflexivity|].
+  specialize (IH (r_state (handle_invoke env tx ip (cache_reset s)))).
+  destruct (run_block env rest _) as [s' rs]. cbn [snd map] in *. rewrite IH. reflexivity.
+Qed.
+
+(** every transaction of every block, whatever came before it in the block *)
+Theorem block_txs_only_fee env txs : forall s, wf_state s = true ->
+  Forall (fun t => interp_sorted (snd t)) txs ->
+  forall tx sb r, In (tx, sb, r) (block_trace env txs s) ->
+    st_cache sb = [] /\
+    (r_status r = StFail -> only_fee (t_payer tx) sb r) /\
+    (r_status r = StSuccess ->
+       exists ip g o, In (tx, ip) txs /\ ip sb g = Some o /\ o_ok o = true /\ success_commits tx sb o r).
+Proof.
+  intros s W. apply wf_state_sorted, sorted_block_sorted in W. revert s W.
+  induction txs as [|[tx0 ip0] rest IH]; intros s BS F tx sb r Hin; [contradiction|].
+  inversion F as [|? ? IS0 F']; subst. cbn [snd] in IS0.
+  assert (BS0 : block_sorted (cache_reset s)) by exact BS.
+  cbn [block_trace] in Hin. destruct Hin as [E|Hin].
+  - injection E as <- <- <-. split; [reflexivity|]. split.
+    + apply handle_invoke_only_fee; exact BS0.
+    + intro H. destruct (handle_invoke_success env tx0 ip0 _ BS0 IS0 H) as (g & o & A & B & _ & D).
+      exists ip0, g, o. split; [left; reflexivity|]. auto.
+  - destruct (stops _); [contradiction|].
+    pose proof (handle_invoke_block_sorted env tx0 ip0 _ BS0 IS0) as BS1.
+    destruct (IH _ BS1 F' tx sb r Hin) as (A & B & C). split; [exact A|]. split; [exact B|].
+    intro H. destruct (C H) as (ip & g & o & I & R). exists ip, g, o. split; [right; exact I|exact R].
+Qed.
+
+(** * Arithmetic of the fee (uint64 with explicit wrap) *)
+
+Ltac Zify.zify_post_hook ::= Z.to_euclidean_division_equations.
+
+Lemma u64mul_small a b : a * b < two64 -> u64mul a b = a * b.
+Proof. intro H. unfold u64mul. apply N.mod_small; exact H. Qed.
+
+Lemma u64mul_comm a b : u64mul a b = u64mul b a.
+Proof. unfold u64mul. rewrite N.mul_comm. reflexivity. Qed.
+
+Lemma u64sub_le a b : b <= a -> a < two64 -> u64sub a b = a - b.
+Proof. intros H1 H2. unfold u64sub, two64 in *. lia. Qed.
+
+Lemma u64add_small a b : a + b < two64 -> u64add a b = a + b.
+Proof. intro H. unfold u64add. apply N.mod_small; exact H. Qed.
+
+Lemma u64_lt x : u64 x < two64.
+Proof. unfold u64. apply N.mod_lt. discriminate. Qed.
+
+(** ** tuneGasFeeByHeight *)
+Lemma tune_fee_panic_iff h th gas round cap :
+  tune_fee h th gas round cap = TunePanic <-> (tune_active h th = true /\ round = 0).
+Proof.
+  unfold tune_fee. destruct (tune_active h th).
+  - destruct (N.eqb_spec round 0) as [->|Hr].
+    + split; [intros _; split; reflexivity|reflexivity].
+    + split; [|intros [_ E]; contradiction].
+      destruct (tune_overflow gas round); [discriminate|]. destruct (tune_over_cap _ _); discriminate.
+  - split; [discriminate|intros [E _]; discriminate].
+Qed.
+
+(** once rounding is active the result never exceeds the balance handed in as the cap *)
+Lemma tune_fee_capped h th gas round cap g :
+  tune_active h th = true -> tune_fee h th gas round cap = TuneVal g -> g <= cap.
+Proof.
+  unfold tune_fee. intros ->. destruct (round =? 0); [discriminate|].
+  destruct (tune_overflow gas round); [intro E; injection E as <-; lia|].
+  unfold tune_over_cap. destruct (N.ltb_spec cap (tune_new round (tune_t gas round))); intro E; injection E as <-; lia.
+Qed.
+
+Lemma tune_fee_inactive h th gas round cap : tune_active h th = false -> tune_fee h th gas round cap = TuneVal gas.
+Proof. unfold tune_fee. intros ->. reflexivity. Qed.
+
+(** the rounded value: the cap, or the least multiple of [round] that is >= gas *)
+Lemma tune_fee_rounds h th gas round cap g : gas < two64 -> round < two64 ->
+  tune_active h th = true -> tune_fee h th gas round cap = TuneVal g ->
+  g = cap \/ (g mod round = 0 /\ gas <= g /\ g < gas + round /\ g <= cap).
+Proof.
+  intros Hg Hr. unfold tune_fee. intros ->. destruct (N.eqb_spec round 0) as [|Hr0]; [discriminate|].
+  unfold tune_overflow. destruct (N.ltb_spec (u64sub max_u64 round) gas); [intro E; injection E as <-; left; reflexivity|].
+  assert (Hsum : gas + round <= max_u64).
+  { rewrite u64sub_le in H by (unfold max_u64, two64 in *; lia). unfold max_u64, two64 in *. lia. }
+  unfold tune_over_cap. destruct (N.ltb_spec cap (tune_new round (tune_t gas round))); intro E; injection E as <-; [left; reflexivity|].
+  right. unfold tune_new, tune_t in *.
+  rewrite u64add_small in * by (unfold max_u64, two64 in *; lia).
+  rewrite (u64sub_le (gas + round) 1) in * by (unfold max_u64, two64 in *; lia).
+  unfold u64div in *. set (q := (gas + round - 1) / round) in *.
+  assert (Hq : round * q <= gas + round - 1) by (subst q; apply N.mul_div_le; exact Hr0).
+  assert (Hq2 : gas + round - 1 < round * q + round).
+  { subst q. pose proof (N.mod_lt (gas + round - 1) round Hr0). pose proof (N.div_mod (gas + round - 1) round Hr0). lia. }
+  rewrite u64mul_small in * by (unfold max_u64, two64 in *; lia).
+  split; [rewrite N.mul_comm; apply N.mod_mul; exact Hr0|]. lia.
+Qed.
+
+(** ** the rounding unit GasPrice * MIN_TRANSACTION_GAS wraps to 0 exactly on the multiples of 2^59 *)
+Lemma round_zero_iff price : price < two64 ->
+  (fee_fail_round price = 0 <-> price mod 576460752303423488 = 0).
+Proof.
+  intro Hp. unfold fee_fail_round, u64mul, FEE_MIN_TRANSACTION_GAS.
+  rewrite !N.mod_divide by discriminate. split.
+  - intros [q Hq]. apply N.gauss with (m := 625); [|reflexivity].
+    exists q. unfold two64 in Hq. lia.
+  - intros [k ->]. exists (625 * k). unfold two64. lia.
+Qed.
+
+Lemma rounds_agree price : fee_insuf_round price = fee_fail_round price /\ fee_ok_round price = fee_fail_round price /\
+  fee_min_gas price = fee_fail_round price.
+Proof. unfold fee_insuf_round, fee_ok_round, fee_fail_round, fee_min_gas. rewrite (u64mul_comm FEE_MIN_TRANSACTION_GAS). auto. Qed.
+
+(** * Panics *)
+
+Lemma cost_invalid_req tx s g : r_req (cost_invalid tx s g) = Some g.
+Proof. unfold cost_invalid. destruct (ong_transfer _ _ _ _ _) as [f [[]|]]; reflexivity. Qed.
+
+(** a panic that is not the storage writer's is the division by zero in tuneGasFeeByHeight: the
+    transaction is charged, rounding is active at this height, and GasPrice*MIN_TRANSACTION_GAS = 0 *)
+Lemma handle_invoke_panic env tx ip s :
+  r_status (handle_invoke env tx ip s) = StPanic -> r_req (handle_invoke env tx ip s) = None ->
+  is_charge tx = true /\ tune_active (e_height env) (e_tune env) = true /\ fee_fail_round (t_price tx) = 0.
+Proof.
+  assert (T : forall s' a b c, r_status (tuned_cost_invalid env tx s' a b c) = StPanic ->
+              r_req (tuned_cost_invalid env tx s' a b c) = None -> tune_active (e_height env) (e_tune env) = true /\ b = 0).
+  { intros s' a b c. unfold tuned_cost_invalid. destruct (tune_fee _ _ a b c) eqn:E.
+    - intros _ _. apply tune_fee_panic_iff in E. exact E.
+    - rewrite cost_invalid_req. discriminate. }
+  destruct (rounds_agree (t_price tx)) as (R1 & R2 & _).
+  unfold handle_invoke. fold (is_charge tx). destruct (is_charge tx) eqn:Ec.
+  - destruct (e_codegas env); [|discriminate]. destruct (get_balance s _); [|discriminate].
+    destruct (fee_lt_min _ _); [rewrite cost_invalid_req; discriminate|].
+    destruct (fee_lt_code _ _ _); [rewrite cost_invalid_req; discriminate|].
+    destruct (fee_lt_limit _ _); [rewrite cost_invalid_req; discriminate|].
+    unfold exec_part. destruct (ip s _) as [o|]; [|discriminate]. destruct (o_internal o); [discriminate|].
+    destruct (negb (o_ok o)).
+    + intros A B. destruct (T _ _ _ _ A B) as [X Y]. auto.
+    + destruct (get_balance _ _); [|discriminate]. destruct (fee_lt_new _ _).
+      * intros A B. destruct (T _ _ _ _ A B) as [X Y]. rewrite R1 in Y. auto.
+      * destruct (tune_fee _ _ _ _ _) eqn:E.
+        -- intros _ _. apply tune_fee_panic_iff in E. destruct E as [X Y]. rewrite R2 in Y. auto.
+        -- destruct (ong_transfer _ _ _ _ _) as [s2 [[]|]]; discriminate.
+  - unfold exec_part. destruct (ip s _) as [o|]; [|discriminate]. destruct (o_internal o); [discriminate|].
+    destruct (negb (o_ok o)); discriminate.
+Qed.
+
+(** and it does panic: a charged transaction whose price is a multiple of 2^59 and whose script is
+    run (any outcome that is not an internal error, balance readable afterwards) *)
+Lemma exec_part_round_zero_panics env tx ip s avail clg old o :
+  tune_active (e_height env) (e_tune env) = true -> fee_fail_round (t_price tx) = 0 ->
+  ip s (fee_exec_gas avail clg) = Some o -> o_internal o = false ->
+  (o_ok o = true -> get_balance (mkState (o_cache o) (st_overlay s) (st_store s)) (t_payer tx) <> None) ->
+  r_status (exec_part env tx ip s true avail clg old) = StPanic.
+Proof.
+  intros A R E I B. destruct (rounds_agree (t_price tx)) as (R1 & R2 & _).
+  assert (P : forall a c, tune_fee (e_height env) (e_tune env) a 0 c = TunePanic).
+  { intros. apply tune_fee_panic_iff. auto. }
+  unfold exec_part. rewrite E, I. destruct (o_ok o); cbn [negb].
+  - destruct (get_balance _ _) as [new|]; [|exfalso; apply B; reflexivity].
+    unfold tuned_cost_invalid. rewrite R1, R2, R, !P. destruct (fee_lt_new _ _); reflexivity.
+  - unfold tuned_cost_invalid. rewrite R, P. reflexivity.
+Qed.
+
+(** * The amount asked for never exceeds what the payer has, when nothing wraps *)
+
+Lemma get_balance_u64 s a old : get_balance s a = Some old -> old < two64.
+Proof. unfold get_balance. destruct (balance_at s a); [|discriminate]. intro E; injection E as <-. apply u64_lt. Qed.
+
+Lemma cost_gas_le_old price limit clg old left :
+  price <> 0 -> old < two64 -> limit < two64 ->
+  FEE_MIN_TRANSACTION_GAS * price <= old -> clg * price <= old -> clg <= limit ->
+  let avail := if fee_ava_gt limit (fee_max_ava old price) then fee_max_ava old price else limit in
+  left <= fee_exec_gas avail clg ->
+  let cgl0 := fee_cost_limit avail left in
+  fee_cost_gas (if fee_cost_lt_min cgl0 then fee_cost_floor else cgl0) price <= old.
+Proof.
+  intros Hp Ho Hl Hmin Hclg Hcl. cbv zeta.
+  unfold fee_ava_gt, fee_max_ava, u64div.
+  assert (Hm : old / price * price <= old) by (rewrite N.mul_comm; apply N.mul_div_le; exact Hp).
+  assert (Hc : clg <= old / price) by (apply N.div_le_lower_bound; [exact Hp|rewrite N.mul_comm; exact Hclg]).
+  set (avail := if old / price <? limit then old / price else limit).
+  assert (Ha : avail <= old / price /\ avail <= limit /\ clg <= avail).
+  { subst avail. destruct (N.ltb_spec (old / price) limit); lia. }
+  destruct Ha as (Ha1 & Ha2 & Ha3).
+  unfold fee_exec_gas, fee_cost_limit. rewrite (u64sub_le avail clg) by lia. intro Hleft.
+  rewrite (u64sub_le avail left) by lia.
+  unfold fee_cost_lt_min, fee_cost_floor, fee_cost_gas.
+  assert (Hap : avail * price <= old) by nia.
+  destruct (N.ltb_spec (avail - left) FEE_MIN_TRANSACTION_GAS).
+  - rewrite u64mul_small by lia. exact Hmin.
+  - assert ((avail - left) * price <= avail * price) by (apply N.mul_le_mono_r; lia).
+    rewrite u64mul_small by lia. lia.
+Qed.
+
+Theorem req_le_balance env tx ip s cg old g :
+  is_charge tx = true -> e_codegas env = Some cg -> no_wrap3 cg tx -> t_limit tx < two64 ->
+  interp_gas_ok ip -> get_balance s (t_payer tx) = Some old ->
+  r_status (handle_invoke env tx ip s) = StFail -> r_req (handle_invoke env tx ip s) = Some g ->
+  g <= old \/
+  (exists gas o new, ip s gas = Some o /\ o_ok o = true /\
+     get_balance (mkState (o_cache o) (st_overlay s) (st_store s)) (t_payer tx) = Some new /\ g <= new).
+Proof.
+  intros Hc Hcg (W1 & W2 & W3) Hl GO Hold.
+  pose proof (get_balance_u64 _ _ _ Hold) as Ho.
+  assert (Hp : t_price tx <> 0).
+  { unfold is_charge in Hc. apply andb_true_iff in Hc. destruct Hc as [_ Hc]. destruct (N.eqb_spec (t_price tx) 0); [discriminate|assumption]. }
+  unfold handle_invoke. fold (is_charge tx). rewrite Hc, Hcg, Hold.
+  unfold fee_lt_min, fee_min_gas. rewrite (u64mul_small _ _ W1).
+  destruct (N.ltb_spec old (FEE_MIN_TRANSACTION_GAS * t_price tx)) as [|Hmin].
+  { rewrite cost_invalid_req. intros _ E; injection E as <-. left. unfold fee_charge_nobal_min. lia. }
+  unfold fee_lt_code. rewrite (u64mul_small _ _ W3).
+  destruct (N.ltb_spec old (code_len_gas (t_codelen tx) cg * t_price tx)) as [|Hclg].
+  { rewrite cost_invalid_req. intros _ E; injection E as <-. left. unfold fee_charge_nobal_code. lia. }
+  unfold fee_lt_limit. destruct (N.ltb_spec (t_limit tx) (code_len_gas (t_codelen tx) cg)) as [Hlt|Hcl].
+  { rewrite cost_invalid_req. intros _ E; injection E as <-. left. unfold fee_charge_limit. rewrite (u64mul_small _ _ W2).
+    assert (t_limit tx * t_price tx <= code_len_gas (t_codelen tx) cg * t_price tx) by (apply N.mul_le_mono_r; lia). lia. }
+  set (clg := code_len_gas (t_codelen tx) cg) in *.
+  set (avail := if fee_ava_gt (t_limit tx) (fee_max_ava old (t_price tx)) then fee_max_ava old (t_price tx) else t_limit tx).
+  unfold exec_part. destruct (ip s (fee_exec_gas avail clg)) as [o|] eqn:Eo; [|discriminate].
+  pose proof (GO _ _ _ Eo) as Hleft.
+  pose proof (cost_gas_le_old (t_price tx) (t_limit tx) clg old (o_left o) Hp Ho Hl Hmin Hclg Hcl Hleft) as Hcost.
+  cbv zeta in Hcost. fold avail in Hcost.
+  set (costGas := fee_cost_gas _ (t_price tx)) in *.
+  assert (T : forall s' cap, cap <= old ->
+     r_status (tuned_cost_invalid env tx s' costGas (fee_fail_round (t_price tx)) cap) = StFail ->
+     r_req (tuned_cost_invalid env tx s' costGas (fee_fail_round (t_price tx)) cap) = Some g -> g <= old).
+  { intros s' cap Hcap. unfold tuned_cost_invalid. destruct (tune_fee _ _ _ _ cap) as [|g'] eqn:Et; [discriminate|].
+    rewrite cost_invalid_req. intros _ E; injection E as <-.
+    destruct (tune_active (e_height env) (e_tune env)) eqn:Ea.
+    - pose proof (tune_fee_capped _ _ _ _ _ _ Ea Et). lia.
+    - rewrite tune_fee_inactive in Et by exact Ea. injection Et as <-. exact Hcost. }
+  destruct (rounds_agree (t_price tx)) as (R1 & R2 & _).
+  destruct (o_internal o); [discriminate|]. destruct (o_ok o) eqn:Ok; cbv beta iota delta [negb].
+  2:{ intros A B. left. apply (T _ _ (N.le_refl old) A B). }
+  destruct (get_balance (mkState (o_cache o) (st_overlay s) (st_store s)) (t_payer tx)) as [new|] eqn:En; [|discriminate].
+  unfold fee_lt_new, fee_insuf_gas, fee_insuf_cap. destruct (N.ltb_spec new costGas) as [|Hn].
+  { rewrite R1. intros A B. left. apply (T _ _ (N.le_refl old) A B). }
+  unfold fee_ok_gas, fee_ok_cap. destruct (tune_fee _ _ _ _ new) as [|g'] eqn:Et; [discriminate|].
+  destruct (ong_transfer _ _ _ g' _) as [s2 [e|]]; [|discriminate].
+  intros A B. right. exists (fee_exec_gas avail clg), o, new. split; [exact Eo|]. split; [exact Ok|]. split; [exact En|].
+  assert (g = g') by (destruct e; cbn [charge_failed r_req] in B; congruence). subst g'.
+  destruct (tune_active (e_height env) (e_tune env)) eqn:Ea.
+  - apply (tune_fee_capped _ _ _ _ _ _ Ea Et).
+  - rewrite tune_fee_inactive in Et by exact Ea. injection Et as <-. exact Hn.
+Qed.
+
+(** * The charge cannot fail when the payer signed, has the amount, and the records are sane *)
+
+Lemma balance_to_bytes_domain b : balance_in_domain b -> exists raw, balance_to_bytes b = Some raw.
+Proof. intro D. destruct (balance_bytes_roundtrip b D) as [raw [E _]]. eauto. Qed.
+
+Lemma ong_transfer_succeeds from to amt s fb tb : sorted_state s -> from <> to ->
+  let v := (Z.of_N amt * ScaleFactor)%Z in
+  bal_in (abs s) from = Some fb -> bal_in (abs s) to = Some tb ->
+  (v <= fb)%Z -> (v <= FEE_ONG_TOTAL_SUPPLY_V2)%Z ->
+  balance_in_domain fb -> balance_in_domain (tb + v) ->
+  exists s', ong_transfer true from to amt s = (s', None).
+Proof.
+  intros Hs Hn v Hfb Htb Hle Hsup Dfb Dtb. unfold ong_transfer.
+  destruct (amt =? 0); [eauto|]. fold v.
+  destruct (Z.ltb_spec FEE_ONG_TOTAL_SUPPLY_V2 v); [lia|]. cbn [negb].
+  rewrite balance_at_abs by exact Hs. rewrite Hfb. destruct (Z.ltb_spec fb v); [lia|].
+  assert (Dnf : balance_in_domain (fb - v)).
+  { pose proof (read_balance_nonneg _ _ Htb). unfold balance_in_domain, ScaleFactor, two64Z in *.
+    destruct Dfb. split; [lia|].
+    assert (((fb - v) / 1000000000 <= fb / 1000000000)%Z) by (apply Z.div_le_mono; unfold v, ScaleFactor; lia). lia. }
+  set (s1 := if (_ =? 0)%Z then _ else _).
+  assert (H1 : exists x, s1 = Some x /\ sorted_state x /\ abs x = set_bal from (fb - v) (abs s)).
+  { subst s1. destruct (Z.eqb_spec (fb - v) 0) as [Ez|Ez].
+    - eexists. split; [reflexivity|]. split; [apply cache_delete_sorted; exact Hs|].
+      destruct (cache_delete_refines pfx (ong_key from) s Hs) as [A _]. rewrite A.
+      unfold set_bal, enc_bal. rewrite Ez. reflexivity.
+    - destruct (balance_to_bytes_domain _ Dnf) as [raw Er]. rewrite Er. eexists. split; [reflexivity|].
+      split; [apply cache_put_sorted; exact Hs|].
+      destruct (cache_put_refines pfx (ong_key from) raw s Hs) as [A _]. rewrite A.
+      unfold set_bal. rewrite (enc_bal_some _ _ Ez Er). reflexivity. }
+  destruct H1 as (x & -> & Hx & Ax).
+  rewrite balance_at_abs by exact Hx. rewrite Ax.
+  rewrite bal_in_set_other by (try apply abs_sorted; auto). rewrite Htb.
+  destruct (balance_to_bytes_domain _ Dtb) as [raw Er]. rewrite Er. eauto.
+Qed.
+
+(** costInvalidGas collects exactly what it was asked to collect *)
+Theorem cost_invalid_pays tx s g fb tb : block_sorted s -> t_signed tx = true -> t_payer tx <> FEE_GOV_ADDR ->
+  let v := (Z.of_N g * ScaleFactor)%Z in
+  bal_in (abs_block s) (t_payer tx) = Some fb -> bal_in (abs_block s) FEE_GOV_ADDR = Some tb ->
+  (v <= fb)%Z -> (v <= FEE_ONG_TOTAL_SUPPLY_V2)%Z -> balance_in_domain fb -> balance_in_domain (tb + v) ->
+  r_status (cost_invalid tx s g) = StFail /\ r_gas (cost_invalid tx s g) = g.
+Proof.
+  intros BS Sg Hn v Hfb Htb Hle Hsup Dfb Dtb. unfold cost_invalid. rewrite Sg.
+  rewrite <- abs_fresh in Hfb, Htb.
+  destruct (ong_transfer_succeeds _ _ g _ fb tb (fresh_sorted s BS) Hn Hfb Htb Hle Hsup Dfb Dtb) as [s' E].
+  rewrite E. split; reflexivity.
+Qed.
